@@ -93,7 +93,9 @@ def r_listpair(E):
         t = norm(fn)
         if m in ADDERS:
             first = fn.body[0]
-            if "self.check_value_type(value)" not in norm(first):
+            vparam = fn.args.args[-1].arg
+            if not (isinstance(first, ast.Expr) and isinstance(first.value, ast.Call)
+                    and norm(first.value.func) == "self.check_value_type" and [norm(a) for a in first.value.args] == [vparam]):
                 res.findings.append(Finding("R-LISTPAIR", f"{where} type check",
                                             f"{where} no longer checks the element type before doing anything: a "
                                             f"non-ModelingObject is passed to ModelingUpdate first", rel, fn.lineno, where))
